@@ -350,7 +350,7 @@ fn main() {
     if rep.violation_count() > 0 {
         rep.set("states", total.0);
         rep.set("transitions", total.1);
-        rep.set("programs", json!(per_prog));
+        rep.set("pool_programs", json!(per_prog));
         rep.set("part_b", json!({"skipped": "part A reported a violation"}));
         rep.set("exhaustive", false);
         rep.finish();
@@ -362,7 +362,7 @@ fn main() {
     rep.set("transitions", total.1 + b["actions"].as_u64().unwrap_or(0));
     rep.set("evaluations", total.0 + bs);
     rep.set("traces_validated_against_impl", total.0 + bs);
-    rep.set("programs", json!(per_prog));
+    rep.set("pool_programs", json!(per_prog));
     rep.set("part_b", b);
     rep.set("exhaustive", !total.2 && bcap.is_none());
     if total.2 {
